@@ -16,7 +16,7 @@ PROPS = {
         explanation='theorems for every message, size and arrival sequence (Props.C14: bounded, lossless, only complete streams, exactly once); model tied to fragmentation.go by function-level differential runs (fragment/parseFragment/receiveFragment) and whole-session runs with hostile fragment arrivals; Go oracle: size bound, reference reassembly, no double delivery',
         assumptions=['instance tags < 2^32', 'piece count <= 65535 (16-bit index/total of the wire format; beyond it the message is handed out whole)', 'encoded messages contain no comma (Proofs.B64)']),
     'C07': dict(
-        module='Props.C07', extra_modules=['Props.C07Skel'], level='proof',
+        module='Props.C07', extra_modules=['Props.C07Skel', 'Props.C07Skel2'], level='proof',
         profiles=dict(quick=[('c07', 400, 1)], thorough=[('c07', 400, 1), ('life', 150, 4)]),
         explanation='verified exhaustive exploration of an abstract two-party AKE system (Otr.AkeAbs, explore_sound) decides liveness for every start pattern and every delivery schedule; the abstraction is tied to the implementation by running every maximal schedule of every pattern on the real code (both versions) and comparing final states; the state-machine skeleton of the conversation model is proved equal to the abstract transition table (Props.C07Skel: every step of processAKE is no step, a row of the table of AkeAbs.recvAke, or the one randomness-failure reset), start patterns with the trigger repeated in flight are explored on the implementation',
         assumptions=['time is frozen within an exchange (the 60 s repeat-query window does not expire)', 'cryptographic checks are abstracted to identifier equality', 'known finding: simultaneous start deadlocks (test-pinned)']),
@@ -41,7 +41,7 @@ PROPS = {
         explanation='exact decision table of verifyInstanceTags and own-tag generation for all inputs and all randomness (Props.C15); tied to otrv3.go/instance_tags.go by differential runs over the 7x7 tag grid on several message kinds and fragments, before and after binding; Go oracle: foreign/malformed traffic changes nothing and the genuine peer still gets through; ExtractInstanceTags compared with what the sender wrote; whole-Receive theorems (Props.C15Recv): a complete message or fragment with a foreign or malformed tag changes nothing, a bound peer tag is never changed by any Receive, a binding only comes from a well-formed accepted message',
         assumptions=['ExtractInstanceTags is modelled and compared differentially, its theorem is the header round trip only', 'known finding: InitializeInstanceTag accepts a preset tag below 0x100 (test-pinned)']),
     'C16': dict(
-        module='Props.C16', extra_modules=['Props.C16Api', 'Props.C16Emit'], level='proof',
+        module='Props.C16', extra_modules=['Props.C16Api', 'Props.C16Emit', 'Props.C16EmitReal'], level='proof',
         profiles=dict(quick=[('policy', 500, 1)], thorough=[('policy', 4600, 2), ('life', 100, 2)]),
         explanation='version choice, query/whitespace-tag version extraction for EVERY policy pair and friendly text, stickiness, disabled pass-through and exact plaintext recovery as theorems (Props.C16); tied to version.go/query.go/whitespace.go/send.go/receive.go by differential runs over policy pairs (full 64x64 product in the thorough tier) and offer forms; over all API histories (Props.C16Api): the committed version is always allowed and never replaced, forbidden-version messages change nothing, disabled conversations pass everything through, everything any call of any API history hands out that is an armoured OTR message carries the committed, allowed version — key exchange replies, retransmissions and fragments included (Props.C16Emit)',
         assumptions=['plain-text exactness needs the first occurrence of the tag header in text++tag to be at |text| (the 16-byte header has period 15: inherent to the tag format)']),
@@ -81,7 +81,7 @@ PROPS = {
         explanation='success-event guard for every message and state, no-panic theorems after the group checks, state-machine invariant (Props.C12); Go oracle sends SMP messages authenticated by the genuine peer with one field replaced by a boundary value / perturbed / miscounted / truncated, plus user calls out of sequence, and requires no success, no panic, and a successful honest run afterwards; the SMP state machine as an explicit table over all states and TLVs, never-stuck and state-independence theorems (Props.C12Machine)',
         assumptions=['soundness of the zero-knowledge proofs against non-degenerate cheating is computational: covered by generated inputs only', 'known finding: OTRv2 accepts degenerate group elements (test-pinned)']),
     'C13': dict(
-        module='Props.C13', extra_modules=['Props.C13Real'], level='proof',
+        module='Props.C13', extra_modules=['Props.C13Real', 'Props.C13RealApi'], level='proof',
         profiles=dict(quick=[('parse', 150, 1), ('life', 25, 1), ('keyfile', 150, 1), ('ake', 60, 1), ('smp', 40, 1), ('tags', 40, 1)], thorough=[('parse', 1500, 8), ('life', 300, 8), ('keyfile', 2000, 4), ('tags', 100, 2), ('frag', 40, 2), ('ake', 600, 4)]),
         explanation='total model with explicit panic outcomes; theorems: complete list of panic sites reachable from a data message, no panic under the session invariants, allocation bound of ExtractMPIs (Props.C13); Go harness runs every public parser and Receive in every conversation state on structured/mutated/raw input under recover with time and allocation measurement, a usability probe afterwards, and fails or shortens the k-th randomness read for every k',
         assumptions=['the key-file reader is run in a worker process so that a stack overflow or hang is observed rather than fatal', 'Go runtime behaviour (stack, GC) is observed, not modelled']),
